@@ -2010,6 +2010,7 @@ def call_parser_function(
         )
         return ""
 
+    stack_len = len(ctx.expand_stack)
     try:
         ret = fn(ctx, fn_name, args, expander)
     except Exception as e:
@@ -2018,6 +2019,10 @@ def call_parser_function(
             # nested #invoke inside this function's arguments was running:
             # that is not this function's failure; let the invocation unwind.
             raise
+        # The failure may come from deep inside the expansion of an argument
+        # (a raising template_fn hook, too deep recursion): drop the path
+        # entries of the frames that were abandoned.
+        del ctx.expand_stack[stack_len:]
         # Parser functions report bad input in-band (domain/overflow errors
         # in #expr, titles in namespaces without a talk page, missing
         # arguments, ...) instead of aborting the whole expansion.
